@@ -96,7 +96,7 @@ func specs() []*Spec {
 		},
 		{
 			ID:     "C16",
-			Units:  []Unit{{Pkg: "internal/ge25519", Job: "C16", Quick: []string{"default", "noasm", "force32bit", "appengine"}, Thorough: allCfg}},
+			Units:  []Unit{{Pkg: "internal/ge25519", Job: "C16", Quick: allCfg, Thorough: allCfg}},
 			Rule:   "E1 enumeration per backend (assembly / reference selector, unsafe / subtle conditional move, both limb layouts): selector on its complete finite domain 32 rows x 17 digits (-8..8) == niels form of [b*256^row]B (validates all 256 table entries); the 32 sliding-table entries; Basepoint, d, 2d, sqrt(-1); fixed base on the nibble-pattern alphabet NIB (every digit value at every position, carry runs) + specials, through Expand (reduced callers) and ExpandRaw of the clamped value (X25519 caller) == Encode([s]B) of the model; double base on P in {B,-B,A(a0),A(a1),T_1..T_7,B+T_4,A(a0)+T_7,identity} (quick 5) x s1 in W5 (d*2^i, d odd < 32; runs of ones at offsets 0/1/124/251; 0,1,L-1,L-2) x s2 in {0,1,a0}, and P in {B,A(a0)} x s1 in {0,1,a0} x s2 in W7 (d odd < 128), points supplied through UnpackVartime / UnpackNegativeVartime alternately == [s1]P+[s2]B computed by the model through known discrete logs.",
 			Assume: append(trusted, "field Contract as decided by C18; scalar Expand as decided by C19"),
 		},
